@@ -263,7 +263,7 @@ h("C19", "c19::c19_estimate_history", tier="probe", funcs=["realtime::estimate_n
 h("C13", "c13::c13_truncated_last_zones", tier="probe", funcs=CFM, space="one segment whose azimuth 359 declares two zones; cut at 726..=734", bounds="unwind 362", mfs=1024, mem=24, timeout=7200, unwind_is_violation=True)
 h("C04", "c04::c04_vcp_fixed_frame", funcs=["decode_volume_coverage_pattern"], space="all 2^(8*114) inputs of 114 bytes", bounds="fixed length; unwind 5", mfs=128, mem=12, unwind_is_violation=True, timeout=1800)
 h("C04", "c04::c04_messages_unknown_block", funcs=["decode_messages", "decode_message_header", "decode_message_contents", "decode_digital_radar_data"], space="76-byte stream: one type-31 message with the unknown block name XYZ; free size fields of the message header", bounds="fixed length 76; unwind 12", mfs=128, mem=16, unwind_is_violation=True, timeout=1800)
-h("C04", "c04::c04_messages_unknown_block_size0", funcs=["decode_messages", "decode_message_header", "decode_message_contents", "decode_digital_radar_data"], space="76-byte stream: one type-31 message with the unknown block name XYZ; size fields concrete 0, channel/sequence/date/time bytes free", bounds="fixed length 76; unwind 12 (a loop that makes no progress fails the unwinding assertion)", mfs=128, mem=16, unwind_is_violation=True, timeout=1800)
+h("C04", "c04::c04_messages_unknown_block_size0", funcs=["decode_messages", "decode_message_header", "decode_message_contents", "decode_digital_radar_data"], space="76-byte stream: one type-31 message with the unknown block name XYZ; size fields concrete 0, channel/sequence/date/time bytes free", bounds="fixed length 76; unwind 6 (a loop that makes no progress fails the unwinding assertion)", mfs=128, mem=16, unwind_is_violation=True, timeout=1800)
 h("C03", "c03::c03_type31_odd_length_then_frame15", funcs=DM + ["decode_digital_radar_data"], space="95-byte type-31 message (one 8-bit REF moment, 3 gates; symbolic header, elevation number, gate bytes) followed by a type-15 frame with a concrete header", bounds="2 messages; odd message length; unwind 30", mfs=5000, mem=16, timeout=1800)
 h("C03", "c03::c03_type31_then_frame15_concrete_tail", funcs=DM, space="type-31 message (symbolic header, elevation number) followed by a type-15 frame whose header is concrete", bounds="2 messages; concrete second header; unwind 30", mfs=5000, mem=16, timeout=1800)
 h("C01", "c01::c01_two_radials_same_elevation", tier="probe", funcs=SC, space="1 record, 2 radials of elevation 1, each with a VOL block: azimuth numbers, VCP numbers, times symbolic", bounds="2 radials, concrete elevation numbers (1,1); unwind 8", mfs=4096, mem=30, timeout=3600)
@@ -289,6 +289,8 @@ for nm, sp in (("c04_type31_far_pointer_256m", "0x1000_0000"), ("c04_type31_far_
 h("C02", "z::c02_gate_buffer_exact", kind="z", script="smt/z_c04.py", funcs=["GenericDataBlock::new (MIR)"], space="all 2^16 gate counts x all 2^8 word sizes: allocation size == gates x (word / 8)", bounds="loop-free; QF_BV; z3 and cvc5 must agree", mem=6, timeout=900)
 h("C04", "z::c04_gate_buffer_bound", kind="z", script="smt/z_c04.py", funcs=["GenericDataBlock::new (MIR)"], space="all 2^16 gate counts x all 2^8 word sizes", bounds="loop-free; QF_BV; z3 and cvc5 must agree", mem=6, timeout=900)
 # the 'BZ' predicate and the decompress/decode error gates are part of C05's statement as well
+# the header's date-time accessor is part of C05's statement too (the same query as in C08)
+h("C05", "c08::c08_vol_header_exact", funcs=["nexrad_data::volume::Header::date_time", "volume::util::get_datetime"], space="all d in 1..=65535 x all t < 86,400,000 ms (other header bytes free)", bounds="no loop; complete", timeout=1800, mem=12)
 h("C05", "c06::c06_record_compressed", funcs=["volume::Record::{from_slice,new,data,compressed}"], space="all byte strings of length 0..=12", bounds="L = 12", mem=4)
 h("C05", "c06::c06_compressed_record_not_decoded", funcs=["volume::Record::{messages,compressed}"], space="all 12-byte records with the 'BZ' magic", bounds="magic bytes concrete", mem=8)
 h("C05", "c06::c06_uncompressed_record_not_decompressed", funcs=["volume::Record::{decompress,compressed}"], space="all 5-byte records; all 12-byte records whose byte 4 is 'X'", bounds="only the gate before FFI", mem=8)
